@@ -17,7 +17,7 @@ import traceback
 ROOT = os.path.dirname(os.path.dirname(os.path.abspath(__file__)))
 EVIDENCE_DIR = os.environ.get("VERIF_EVIDENCE_DIR") or os.path.join(ROOT, "evidence")
 REPLAY_DIR = os.path.join(ROOT, "replays")
-KNOWN_FILE = os.path.join(ROOT, "known_findings.json")
+KNOWN_DIR = os.path.join(ROOT, "known_findings")
 SCHEMA_FILE = os.path.join(ROOT, "mc", "schemas", "EVIDENCE.schema.json")
 
 HARNESS_EXC = (ImportError, MemoryError, OSError, KeyboardInterrupt, SystemExit)
@@ -339,8 +339,10 @@ class Ctx:
 
 # ----------------------------------------------------------------------------------------------- files
 def _load_known(prop):
+    """known_findings/<prop>.json: {"findings": [{"property","signature","what_fails","status":"known"|"fixed",...}]}.
+    Read-only at run time; only status == "known" suppresses, matched by exact signature."""
     try:
-        with open(KNOWN_FILE) as f:
+        with open(os.path.join(KNOWN_DIR, f"{prop}.json")) as f:
             data = json.load(f)
     except FileNotFoundError:
         return {}
